@@ -9,7 +9,8 @@
 //     root = (and F (p x0 x1 x2) (q x3 x4))          p, q: opaque Boolean atoms mentioning every variable (arbitrary truth values)
 //     F    = (and|or  N0 N1 [L6])                    RA children
 //     Nk   = (and|or  L L [L])                       A0 / A1 children, own leaves L0..L2 / L3..L5
-//     Li   = (= u v), u, v symbolic among the variables x0..x4 (u = v allowed)   |   a Boolean variable
+//     Li   = (= u v)  |  an opaque Boolean atom (r_i u v);   u, v symbolic among the variables x0..x4 (u = v allowed)
+//            (leaf symbol: concrete id, symbolically an equality symbol or an uninterpreted predicate)
 // The tree positions are concrete (so that the DFS control flow is concrete for the symbolic executor: a DFS over a term DAG of fully
 // symbolic topology did not finish, see CLAIM.json); everything the pattern match looks at is symbolic.
 #define STU_MAXN 24
@@ -18,7 +19,7 @@ using namespace opensmt;
 using namespace stu;
 
 constexpr int NV = 5;                                   // uninterpreted variables x0..x4, values 0..3
-constexpr uint32_t SYM_IMPL = 13, SYM_TRUE = 14, SYM_P = 40, SYM_Q = 41, SYM_BVAR0 = SYM_VAR0 + 8;
+constexpr uint32_t SYM_IMPL = 13, SYM_TRUE = 14, SYM_P = 40, SYM_Q = 41, SYM_LEAF0 = 48;
 enum : uint32_t { N_TRUE = 5, N_L0 = 6, N_L6 = 12, N_N0 = 13, N_N1 = 14, N_F = 15, N_P = 16, N_Q = 17, N_ROOT = 18, N_FIRST_NEW = 19 };
 constexpr int MAXFACTS = 2;
 #define VCAP 16
@@ -54,6 +55,7 @@ static int n_big, n_small;
 
 // the `processed` set of the DFS (minisat Map<PTRef,bool>; the real Map is checked in C28) as a bitmap over the table
 static bool proc_bits[STU_MAXN];
+static bool leaf_is_eq[7];
 static bool arg_is_var; static uint32_t arg_var;        // the last Pterm::operator[] answer was a variable argument of an equality leaf
 
 extern "C" {
@@ -72,17 +74,20 @@ PTRef stub_ptArg(Pterm const * p, int i) {
 }
 bool stub_isEquality(void *, PTRef t) {
     VASSERT(ref_ok(t), "isEquality asked about a term outside the table"); VASSUME(ref_ok(t));
-    return n_sym[t.x] == SYM_EQ || n_sym[t.x] == SYM_BEQ;
+    uint32_t s = n_sym[t.x];
+    if (s >= SYM_LEAF0 && s < SYM_LEAF0 + 7) return leaf_is_eq[s - SYM_LEAF0];
+    return s == SYM_EQ || s == SYM_BEQ;
 }
 // set membership.  Device that keeps the DFS control flow concrete: the (symbolic) variable argument of an equality leaf is answered `true`
-// without an array read once all variables are in the set -- exact, because it is asserted that the key IS a variable (index < NV) and
+// without an array read once all variables are in the set -- exact, because it is asserted that the key IS that variable (index < NV) and
 // all NV variable bits are set (they are: the atoms p, q are visited first).
 bool stub_procHas(void *, PTRef const * k) {
     VASSERT(ref_ok(*k), "processed.has on a known term"); VASSUME(ref_ok(*k));
-    bool isvar = arg_is_var && arg_var == k->x;
+    bool isvar = arg_is_var;          // set by the immediately preceding Pterm::operator[] on a leaf, cleared by has()/insert()
     arg_is_var = false;
     if (isvar && proc_bits[0] && proc_bits[1] && proc_bits[2] && proc_bits[3] && proc_bits[4]) {
-        VASSERT(k->x < NV, "harness: the argument of an equality leaf is a variable");
+        VASSERT(k->x == arg_var && k->x < NV, "harness: the key is the variable argument of a leaf just fetched");
+        VASSUME(k->x == arg_var && k->x < NV);
         return true;
     }
     return proc_bits[k->x];
@@ -136,9 +141,15 @@ void stub_clear_ptref(vec<PTRef> * v, bool) { v->sz = 0; }
 
 static uint32_t pick(uint32_t lo, uint32_t hi) { uint32_t c = nondet_u8(); VASSUME(c >= lo && c < hi); return c; }
 
-static void leaf(int i) {          // (= u v) over the variables, or a Boolean variable
-    if (nondet_bool()) { uint32_t u = pick(0, NV), v = pick(0, NV); put(i, SYM_EQ, 2, val[u] == val[v], true, u, v); }
-    else put(i, SYM_BVAR0 + (i - N_L0), 0, nondet_bool(), true);
+// leaf i: an atom (s_i u v) over two symbolically chosen variables whose symbol s_i is EITHER an equality symbol (then its value is u == v)
+// OR an uninterpreted predicate (arbitrary truth value).  The symbol id itself is concrete per leaf (the function only compares it with
+// sym_AND / sym_OR); which of the two it is, is symbolic and answered by the isEquality cut point.  (Arity 2 in both cases and a concrete id:
+// CBMC's symbolic executor does not fold comparisons on an if-then-else of constants, a symbolic id or arity makes the DFS control flow symbolic.)
+static void leaf(int i) {
+    uint32_t u = pick(0, NV), v = pick(0, NV);
+    bool eq = nondet_bool();
+    leaf_is_eq[i - N_L0] = eq;
+    put(i, SYM_LEAF0 + (i - N_L0), 2, eq ? (int32_t)(val[u] == val[v]) : (int32_t)nondet_bool(), true, u, v);
 }
 static void inner(int i, int arity, uint32_t a, uint32_t b, uint32_t c) {     // and / or over concrete children
     bool isAnd = nondet_bool();
